@@ -1295,6 +1295,43 @@ def magnitude_tags(L):
     return tags
 
 
+def longrun_lists(n):
+    """One contiguous run of n integers (the quantity a scratch buffer of the formatter scales with), alone, with a
+    detached neighbour on either side, and presented in descending order."""
+    for a in (0, 5):
+        run = list(range(a, a + n))
+        yield 'run', run
+        yield 'run-descending', run[::-1]
+        yield 'run+detached', [a + n + 1] + run + [a + n + 3, a + n + 4]
+
+
+def int_longrun_shard(spec):
+    _, lengths = spec
+    t = inputs.Tally()
+    for n in lengths:
+        for shape, L in longrun_lists(n):
+            t.count(nontrivial=True, sample={'family': 'int', 'shape': shape, 'run_length': n, 'first': L[0]})
+            now = [None]
+
+            def all_variants():
+                out = []
+                for vname, kw in MAG_VARIANTS:
+                    now[0] = vname
+                    out += [(vname,) + v for v in int_eval(L, vname, kw)]
+                return out
+            t.add('comparisons(format/parse)', len(MAG_VARIANTS))
+            try:
+                viols = cpu_guarded(4 * EVAL_CPU_LIMIT, all_variants)
+            except (CpuLimit, MemoryError) as ex:
+                viols = [(now[0], 'C14|fn:format_int_list/parse_int_list(%s)|long-run|terminates' % now[0], 'a result',
+                          'no result: %s' % type(ex).__name__)]
+            for vname, sig, exp, obs in viols:
+                t.bad(sig,
+                      {'family': 'int', 'shape': shape, 'run_length': n, 'first': L[0], 'variant': vname},
+                      str(exp)[:200], str(obs)[:200], tags=['long-run'])
+    return t
+
+
 MAG_VARIANTS = tuple((v, kw) for v, kw in INT_VARIANTS if v != 'delim_space')    # the last variant has delim_space too
 
 
@@ -1757,6 +1794,11 @@ def run(ctx):
     centres = magnitude_centres()
     inputs.run_shards(ctx, int_magnitude_shard, [('mag', centres[i::32]) for i in range(32)],
                       part='int:format/parse:magnitudes', rule='same rule as int:format/parse')
+    top = 17 if ctx.tier == 'quick' else 21
+    lengths = sorted({2 ** k + d for k in range(8, top + 1) for d in (-1, 0, 1)} | {10 ** k for k in range(3, 6)})
+    inputs.run_shards(ctx, int_longrun_shard, [('longrun', lengths[i::16]) for i in range(16)],
+                      part='int:format/parse:long-runs(directed ladder of run lengths up to 2**%d+1)' % top,
+                      rule='always (one run of at least 255 consecutive integers)')
     ccentres = complement_magnitude_centres()
     inputs.run_shards(ctx, complement_magnitude_shard, [('cmag', [c]) for c in ccentres],
                       part='int:complement:magnitudes', rule='non-empty list and non-empty expected complement')
